@@ -319,6 +319,9 @@ func (h *htxEngine) classifyOperand(v ssa.Value) (evKind, string, string) {
 	if bs, ok := byteSliceLit(v); ok {
 		return evConst, string(bs), ""
 	}
+	if str, ok := constBuffer(v, 0); ok {
+		return evConst, str, ""
+	}
 	v0 := v
 	for {
 		switch x := v.(type) {
@@ -788,4 +791,39 @@ func (h *htxEngine) run(entries []*ssa.Function) map[*ssa.Function][]lex {
 		}
 	}
 	return res
+}
+
+// constBuffer recognises a local byte slice built only by appending constants onto an empty fresh slice.
+func constBuffer(v ssa.Value, depth int) (string, bool) {
+	if depth > 20 {
+		return "", false
+	}
+	switch x := v.(type) {
+	case *ssa.MakeSlice:
+		if n, ok := constInt(x.Len); ok && n == 0 {
+			return "", true
+		}
+	case *ssa.Const:
+		if x.Value == nil {
+			return "", true
+		}
+	case *ssa.Slice:
+		if _, isAl := x.X.(*ssa.Alloc); isAl && x.High != nil && isZero(x.High) {
+			return "", true // make([]byte, 0, constant)
+		}
+	case *ssa.Call:
+		if _, ok := isBuiltinCall(x, "append"); ok && len(x.Call.Args) == 2 {
+			base, ok := constBuffer(x.Call.Args[0], depth+1)
+			if !ok {
+				return "", false
+			}
+			if s, ok := constString(x.Call.Args[1]); ok {
+				return base + s, true
+			}
+			if bs, ok := byteSliceLit(x.Call.Args[1]); ok {
+				return base + string(bs), true
+			}
+		}
+	}
+	return "", false
 }
